@@ -47,6 +47,10 @@ type c19wfSpec struct {
 	Fails     []wfStep `json:"failing_sends"` // in order; each followed by the reconnect and a healthy round trip
 	Threshold int      `json:"threshold"`
 	Suppress  bool     `json:"suppress"`
+	// Queued: W-bit sends started while the failing write is blocked (deadline / reset kinds), so that they wait for the
+	// write lock and are released by the generation's end without ever reaching the wire (connection-closed or not-selected:
+	// outcomes that change no error counter — and must leave the in-flight gauge alone). After seeded change C19g-2.
+	Queued int `json:"queued_behind_the_blocked_write,omitempty"`
 }
 
 func (s c19wfSpec) text() string {
@@ -54,7 +58,7 @@ func (s c19wfSpec) text() string {
 	for _, f := range s.Fails {
 		p = append(p, fmt.Sprintf("%s/%s@%d", f.Kind, f.Fail, f.At))
 	}
-	return fmt.Sprintf("writefail:%s suppress=%v k=%d", strings.Join(p, ","), s.Suppress, s.Threshold)
+	return fmt.Sprintf("writefail:%s suppress=%v k=%d queued=%d", strings.Join(p, ","), s.Suppress, s.Threshold, s.Queued)
 }
 
 // c19wfRunOnce runs one timeline with every timer multiplied by scale.
@@ -178,7 +182,38 @@ func c19wfRunOnce(sp c19wfSpec, scale int) (fails []wfFail, replay map[string]an
 				}
 			}()
 		}
+		var qwg sync.WaitGroup
+		if sp.Queued > 0 && (st.Fail == "deadline" || st.Fail == "reset") {
+			qwg.Add(1)
+			go func(fi int) {
+				defer qwg.Done()
+				if !c09WaitFor(func() bool { return g.StallT.Load() != 0 }, 5*time.Second) {
+					return
+				}
+				for q := 0; q < sp.Queued; q++ {
+					qwg.Add(1)
+					callWG.Add(1)
+					go func(q int) {
+						defer qwg.Done()
+						defer callWG.Done()
+						rc, _ := wfDoCall(conn, "s", uint32(0x100+16*fi+q), 0x7a000000+uint32(16*fi+q))
+						ev("send %d queued behind the blocked write: %s %s", q, rc.Outcome, rc.Err)
+					}(q)
+				}
+			}(fi)
+		}
 		rc, ok := call(st.Kind)
+		if ok {
+			qfin := make(chan struct{})
+			go func() { qwg.Wait(); close(qfin) }()
+			select {
+			case <-qfin:
+			case <-time.After(25 * time.Second):
+				fail("send-never-returned", "a W-bit send queued behind the blocked write did not return within 25 s of the generation's end")
+				done()
+				return fails, replay, ""
+			}
+		}
 		if !ok {
 			fail("send-never-returned", "the %s call whose write fails (%s) did not return", st.Kind, st.Fail)
 			done()
@@ -281,6 +316,8 @@ func c19wfSpecs(c *Ctx) []c19wfSpec {
 		{Name: "wbit-write-deadline-suppression-off", Fails: one("s", "deadline", 14), Threshold: 2, Suppress: false},
 		{Name: "no-wbit-write-deadline", Fails: one("f", "deadline", 11), Threshold: 2, Suppress: true},
 		{Name: "async-broken-socket", Fails: one("a", "inject-broken", 1), Threshold: 1, Suppress: true},
+		{Name: "wbit-write-deadline-with-queued-senders", Fails: one("s", "deadline", 10), Threshold: 2, Suppress: true, Queued: 3},
+		{Name: "wbit-reset-under-write-with-queued-senders", Fails: one("f", "reset", 12), Threshold: 1, Suppress: true, Queued: 2},
 		{Name: "two-failed-writes", Fails: []wfStep{{Kind: "s", Fail: "deadline", At: 13}, {Kind: "s", Fail: "inject-broken", At: 1}}, Threshold: 2, Suppress: true},
 	}
 	kinds := []string{"s", "s", "s", "f", "fw", "a"}
